@@ -663,6 +663,21 @@ class Messaging(object):
                 )
             return
 
+        if self._failed:
+            # Older messages for this destination may still be waiting for
+            # its registration callback (the computation is recorded in
+            # discovery before the callbacks are fired): this message must
+            # not overtake them.
+            with self._failed_lock:
+                if any(f[1] == dest_computation for f in self._failed):
+                    self._failed.append(
+                        (src_computation, dest_computation, msg, msg_type, on_error)
+                    )
+                    self._on_computation_registration(
+                        "computation_added", dest_computation, dest_agent
+                    )
+                    return
+
         full_msg = ComputationMessage(src_computation, dest_computation, msg, msg_type)
         if dest_agent == self._local_agent:
             if self.logger.isEnabledFor(logging.DEBUG):
@@ -730,15 +745,15 @@ class Messaging(object):
 
         if evt == "computation_added":
             with self._failed_lock:
-                for failed in self._failed[:]:
-                    src, dest, msg, msg_type, on_error = failed
-                    if dest != computation:
-                        continue
+                # Take the messages out of the list before posting them:
+                # post_msg looks at this list.
+                retry = [f for f in self._failed if f[1] == computation]
+                self._failed[:] = [f for f in self._failed if f[1] != computation]
+                for src, dest, msg, msg_type, on_error in retry:
                     self.logger.info(
                         "Retrying failed message to %s on %s : %s", dest, agent, msg
                     )
                     self.post_msg(src, dest, msg, msg_type, on_error)
-                    self._failed.remove(failed)
 
     def __str__(self):
         return "Messaging({})".format(self._local_agent)
